@@ -269,7 +269,14 @@ pub fn gen(rng: &mut Rng, thorough: bool, out: &mut Sink) {
                     _ => Vec::new(),
                 };
                 sc.sort();
-                (v, s, format!("{:?}", d.config), sc)
+                // the parameters of the model kind (character mode, word length limit) belong to the definition too
+                let params = match &d.model {
+                    Model::BytePair { chars, .. } => format!("bpe chars={}", chars),
+                    Model::Unigram { .. } => "unigram".to_string(),
+                    Model::WordPiece { max_word_chars, .. } => format!("wordpiece max_word_chars={}", max_word_chars),
+                    _ => "other".to_string(),
+                };
+                (v, s, format!("{:?}", d.config), sc, params)
             };
             Some(key(&def) == key(&e))
         });
